@@ -84,7 +84,8 @@ def run_harmless(only_prefix='patch_', by_files=False):
                 file_props.setdefault(it['file'], set()).add(p)
     if by_files and os.path.exists(os.path.join(hd, 'eval_agents.json')):
         out = json.load(open(os.path.join(hd, 'eval_agents.json')))
-    for patch in sorted(f for f in os.listdir(hd) if f.endswith('.diff') and f.startswith(only_prefix)):
+    only = os.environ.get('HARMLESS_ONLY')
+    for patch in sorted(f for f in os.listdir(hd) if f.endswith('.diff') and f.startswith(only_prefix) and (not only or re.search(only, f))):
         sh('git -C %s checkout -q -- . && git -C %s clean -fdq' % (WT, WT))
         r = sh('git -C %s apply %s' % (WT, os.path.join(hd, patch)))
         if r.returncode:
